@@ -32,6 +32,7 @@ structure Cfg where
   surfaceY : Expr
   transposed : Bool
   stripKind : StripKind
+  faceTest : FaceTest
   centre : LTerm
   width : LTerm
   usableDefault : LTerm
@@ -106,9 +107,9 @@ def handle (cfg : Cfg) (st : St) (line : String) : St × String :=
   | "spline" :: uw :: rest =>
     match parsePts rest with
     | some p =>
-      if !splineAccepts p then (st, "rejected")
+      if !splineAccepts (cfg.faceTest.onFace p) p then (st, "rejected")
       else
-        let q := splinePoints cfg.stripKind cfg.centre p
+        let q := splinePoints cfg.stripKind cfg.faceTest cfg.centre p
         let usable := match floatOfBitsStr uw with
           | some u => if u == 0.0 then cfg.usableDefault.eval q else u   -- `if usable_width:` is falsy for 0
           | none => cfg.usableDefault.eval q
